@@ -443,9 +443,9 @@ Qed.
 (* ------------------------------------------------------------------ non-vacuity *)
 Definition ex_p (a b c d : nat) : pos4 := mkP4 a b c d.
 Definition ex_member_field : jmember :=
-  mkMember "field" "" "Bar" "Bar" ["svc"] [] false None true [] ["private"] (ex_p 0 0 0 0) (ex_p 4 10 4 17) [].
+  mkMember "field" "" "Bar" "Bar" ["svc"] [] false [] true [] ["private"] (ex_p 0 0 0 0) (ex_p 4 10 4 17) [].
 Definition ex_member_method : jmember :=
-  mkMember "method" "run" "void" "" [] [("Foo", "x")] true (Some (mkAnnot "Test" [])) true ["Test"] ["public"]
+  mkMember "method" "run" "void" "" [] [("Foo", "x")] true [mkAnnot "Test" []] true ["Test"] ["public"]
            (ex_p 5 21 0 0) (ex_p 5 16 8 2)
            [EFormal "Foo" "x";
             ECall "go" "x" false "" "go()" [] false (ex_p 6 6 6 9);
